@@ -300,7 +300,14 @@ class TrafficFilter:
         Returns:
             bool: True if the IP is external, False otherwise
         """
-        return IPv4Address(ip) not in _PRIVATE_IP_RANGES.get(ip[:2], _BLACK_HOLE)
+        address = ip_address(ip)
+        if not isinstance(address, IPv4Address):
+            # An IPv6 literal passes _validate_ip but IPv4Address() raises on it,
+            # and the error escaped into the application. Only globally routable
+            # IPv6 destinations are external (not loopback / private / link-local).
+            return address.is_global
+
+        return address not in _PRIVATE_IP_RANGES.get(ip[:2], _BLACK_HOLE)
 
     def _is_external_domain(self, host: str) -> Optional[bool]:
         """Check whether an HOST is external or not
